@@ -334,13 +334,28 @@ func vh_C07_divfloat() {
 // Go's remainder.
 func vh_C07_mod() {
 	env := NewZlispSandbox()
-	a, b := vNum(0, "a"), vNum(0, "b")
+	// operand kinds: int, uint64, char on either side.  With a uint64 on
+	// either side the operation is the unsigned one on both operands
+	// converted to uint64 (as + - * are, "as in Go"); otherwise the signed one.
+	ka, kb := vChoice("ka", 3), vChoice("kb", 3)
+	a, b := vNum(ka, "a"), vNum(kb, "b")
 	res, err, panicked := vEval(env, vForm(env, "mod", a, b))
 	vAssert(!panicked, "mod-no-panic")
 	if panicked {
 		return
 	}
-	x, y := a.(*SexpInt).Val, b.(*SexpInt).Val
+	asI := func(x Sexp) int64 {
+		switch t := x.(type) {
+		case *SexpInt:
+			return t.Val
+		case *SexpChar:
+			return int64(t.Val)
+		case *SexpUint64:
+			return int64(t.Val)
+		}
+		return 0
+	}
+	x, y := asI(a), asI(b)
 	if y == 0 {
 		vReach("mod-by-zero")
 		vAssert(err != nil, "mod-by-zero-is-error")
@@ -350,10 +365,18 @@ func vh_C07_mod() {
 	if err != nil {
 		return
 	}
-	r, isI := res.(*SexpInt)
-	vAssert(isI, "mod-is-int")
-	if isI {
-		vAssert(r.Val == x%y, "mod-value")
+	if ka == 1 || kb == 1 {
+		r, isU := res.(*SexpUint64)
+		vAssert(isU, "mod-with-a-uint64-is-uint64")
+		if isU {
+			vAssert(r.Val == uint64(x)%uint64(y), "mod-value")
+		}
+	} else {
+		r, isI := res.(*SexpInt)
+		vAssert(isI, "mod-is-int")
+		if isI {
+			vAssert(r.Val == x%y, "mod-value")
+		}
 	}
 	vReach("mod")
 }
